@@ -1,13 +1,21 @@
 #!/bin/sh
-# usage: build_oracle.sh <id>   — extracts oracle/<id>/extract.v and builds build/oracle_<id>
+# usage: build_oracle.sh <id>   — extracts oracle/<id>/extract.v and builds build/oracle_<id>.
+# Builds in a private directory and installs the binary atomically; skips the build when the
+# binary is newer than every input (the .vo files it extracts from, extract.v, main.ml).
 set -e
 ROOT="$(cd "$(dirname "$0")/.." && pwd)"; BUILD="${VERIF_BUILD:-$ROOT/build}"
 id="$1"
 d="$ROOT/oracle/$id"
-mkdir -p "$d/gen" "$BUILD"
-cd "$d/gen"
-cp ../extract.v extract.v
+out="$BUILD/oracle_$id"
+mkdir -p "$BUILD"
+if [ -x "$out" ] && [ -z "$(find "$d" -maxdepth 1 -type f -newer "$out" | head -1)" ] && \
+   [ -z "$(find "$ROOT/coq" -name '*.vo' -newer "$out" | head -1)" ]; then exit 0; fi
+w="$d/gen.$$"
+rm -rf "$w"; mkdir -p "$w"
+trap 'rm -rf "$w"' EXIT
+cd "$w"
+for f in "$d"/*; do [ -f "$f" ] && cp "$f" .; done
 coqc -Q "$ROOT/coq" LLRP extract.v >/dev/null
-cp ../main.ml main.ml
-ocamlfind ocamlopt -O3 -w -a -package str -linkpkg model.mli model.ml main.ml -o "$BUILD/oracle_$id" 2>/dev/null || \
-ocamlfind ocamlopt -w -a -package str -linkpkg model.mli model.ml main.ml -o "$BUILD/oracle_$id"
+ocamlfind ocamlopt -O3 -w -a -package str -linkpkg model.mli model.ml main.ml -o oracle.bin 2>/dev/null || \
+ocamlfind ocamlopt -w -a -package str -linkpkg model.mli model.ml main.ml -o oracle.bin
+mv -f oracle.bin "$out.$$" && mv -f "$out.$$" "$out"
